@@ -5,7 +5,9 @@
    `engine_config` is the model the engine is tied to (C30_model_is_code): since the repair of set_decimal_config in /repo
    (3d3b9b9) that is the documented function `set_decimal_config_spec`.  `prefix_config` is the code as it was before the
    repair; it is NOT tied to the tree and only carries the regression witnesses (theorems C30_prefix_...).
-   `engine_load` (how a literal becomes a DECIMAL value) is still the faithful `_impl` variant: see C30_load_rounds_to_scale_refuted. *)
+   `engine_load` (how a literal becomes a DECIMAL value) is the faithful `_impl` variant: it equals the documented load for plain
+   decimals and, since the repair of the DataFrame loader (603b519), for floating-point columns (C30_float_columns_load_as_documented;
+   old behaviour: C30_float_load_before_fix); exponent-notation TEXT still deviates (C30_load_rounds_to_scale_refuted). *)
 From Coq Require Import ZArith List Bool Lia QArith.
 Import ListNotations.
 From VTL Require Import Model.Config Proofs.ConfigP Gen.Config.
@@ -18,6 +20,7 @@ Definition D0 := defaults K.
 (* how the engine turns an input literal into a DECIMAL(w,s) value; after a repair: load_lit_spec *)
 Definition engine_load := load_lit_impl.
 Definition documented_load := load_lit_spec.
+Definition before_fix_load := load_lit_before_fix.
 
 (* ---------------------------------------------------------------- the tie, checked by the kernel *)
 Definition row_ok (g : globals) (ew es : option Z) : bool :=
@@ -190,7 +193,7 @@ Proof. exact load_reject_iff. Qed.
 Theorem C30_load_fits : forall w s m e v, load w s m e = Some v -> Z.abs v < 10 ^ w.
 Proof. intros. apply load_some in H. tauto. Qed.
 
-(* inputs in exponent notation (floats below 1e-4 of a DataFrame, CSV text): documented = the exact value rounded *)
+(* inputs in exponent notation (CSV text, string columns, floats below 1e-4): documented = the exact value rounded *)
 Theorem C30_load_all_notations_documented : forall w s,
   (forall m e, documented_load w s (Plain m e) = load w s m e /\ engine_load w s (Plain m e) = load w s m e) /\
   (forall M d x, d <= x -> documented_load w s (Sci M d x) = load w s (M * 10 ^ (x - d)) 0) /\
@@ -202,7 +205,7 @@ Proof.
   - rewrite (proj2 (Z.leb_le (x - d) 0)) by lia. replace (- (x - d)) with (d - x) by lia. reflexivity.
 Qed.
 
-(* the engine (through DuckDB's VARCHAR -> DECIMAL cast) stores 5e-30 as 0.0000000001 under the default DECIMAL(28,10),
+(* the engine (through DuckDB's VARCHAR -> DECIMAL cast) stores the TEXT 5e-30 as 0.0000000001 under the default DECIMAL(28,10),
    and rejects 999e-12 (= 0.000000000999) under DECIMAL(12,10) *)
 Theorem C30_load_rounds_to_scale_refuted :
   (exists M d x, documented_load 28 10 (Sci M d x) = Some 0 /\ engine_load 28 10 (Sci M d x) = Some 1 /\
@@ -214,6 +217,18 @@ Theorem C30_load_rounds_to_scale_partial : forall w s M d x,
   0 <= s -> - (x - d + s) <= ndigits M -> ndigits M - d <= w - s ->
   engine_load w s (Sci M d x) = documented_load w s (Sci M d x).
 Proof. exact load_lit_impl_eq_spec. Qed.
+
+(* floating-point columns of a DataFrame are loaded as documented, whatever the value *)
+Theorem C30_float_columns_load_as_documented : forall w s M d x,
+  engine_load w s (FSci M d x) = documented_load w s (FSci M d x).
+Proof. reflexivity. Qed.
+
+(* regression witness: before the repair the float 5e-30 was stored as 0.0000000001 under the default DECIMAL(28,10), and
+   9e-10 was rejected under DECIMAL(10,10) *)
+Theorem C30_float_load_before_fix :
+  before_fix_load 28 10 (FSci 5 0 (-30)) = Some 1 /\ engine_load 28 10 (FSci 5 0 (-30)) = Some 0 /\
+  before_fix_load 10 10 (FSci 9 0 (-10)) = None /\ engine_load 10 10 (FSci 9 0 (-10)) = Some 9.
+Proof. vm_compute. repeat split. Qed.
 
 Theorem C30_plain_literals_case : forall sub o m1 e1 m2 e2,
   binop_case_lit engine_load sub o (Plain m1 e1) (Plain m2 e2) = binop_case sub o m1 e1 m2 e2.
@@ -267,6 +282,8 @@ Print Assumptions C30_load_rounds_to_scale.
 Print Assumptions C30_load_rejects_overflow.
 Print Assumptions C30_load_rounds_to_scale_refuted.
 Print Assumptions C30_load_rounds_to_scale_partial.
+Print Assumptions C30_float_columns_load_as_documented.
+Print Assumptions C30_float_load_before_fix.
 Print Assumptions C30_sum_diff_exact.
 Print Assumptions C30_result_is_sum_of_loaded.
 Print Assumptions C30_no_overflow_except_18_38.
